@@ -185,8 +185,8 @@ static void v_load_text(void)
     for (int i = 0; files[i]; i++) { char path[512]; snprintf(path, sizeof path, "%s/%s", root, files[i]); FILE* f = fopen(path, "rb"); if (!f) continue; v_textlen += fread(v_text + v_textlen, 1, cap - v_textlen, f); fclose(f); }
     if (v_textlen < 4096) { for (size_t i = 0; i < 65536; i++) v_text[i] = (uint8_t)("the quick brown fox jumps over the lazy dog "[(i * 7 + i / 13) % 44]); v_textlen = 65536; }
 }
-enum { DF_RANDOM, DF_SMALLALPHA, DF_SKEWED, DF_RUNS, DF_LZ, DF_TEXT, DF_INTS, DF_MIX, DF_ISLANDS, DF_ZERO, DF_LONGREP, DF_NB };
-static const char* const v_df_name[DF_NB] = { "random", "smallalpha", "skewed", "runs", "lz", "text", "ints", "mix", "islands", "zero", "longrep" };
+enum { DF_RANDOM, DF_SMALLALPHA, DF_SKEWED, DF_RUNS, DF_LZ, DF_TEXT, DF_INTS, DF_MIX, DF_ISLANDS, DF_ZERO, DF_LONGREP, DF_REPBAIT, DF_NB };
+static const char* const v_df_name[DF_NB] = { "random", "smallalpha", "skewed", "runs", "lz", "text", "ints", "mix", "islands", "zero", "longrep", "repbait" };
 static void gen_data(vrng* r, uint8_t* buf, size_t n, int fam);
 static void gen_lz(vrng* r, uint8_t* buf, size_t n)
 {   /* literals + matches with controlled offset / length distributions */
@@ -235,6 +235,27 @@ static void gen_data(vrng* r, uint8_t* buf, size_t n, int fam)
             int f2 = (int)vr_u(r, DF_NB); if (f2 == DF_MIX) f2 = DF_TEXT; gen_data(r, buf + pos, seg, f2); pos += seg; } break; }
     case DF_ISLANDS: { vr_fill(r, buf, n); size_t k = 1 + vr_u(r, 8); while (k--) { size_t st = vr_u64(r, n); size_t l = 1 + vr_u(r, 3000); if (l > n - st) l = n - st; if (vr_chance(r, 1, 2)) memset(buf + st, 0, l); else if (st > l) memcpy(buf + st, buf + st - l, l); } break; }
     case DF_ZERO: memset(buf, vr_chance(r, 1, 2) ? 0 : (int)vr_u(r, 256), n); break;
+    case DF_REPBAIT: { /* repcode-history bait: periodic data whose period flips among a few values (rep1/rep2/rep3 traffic,
+                          matches after 0 / 1 literal), interrupted by incompressible stretches that contain isolated short
+                          matches at fresh distances (sub-block / raw-tail decisions with pending sequences) */
+        size_t per[3]; per[0] = vr_chance(r, 1, 3) ? 4 + vr_u(r, 300) : vr_chance(r, 1, 2) ? 1000 + vr_u(r, 70000) : 1 + vr_u(r, 200000);
+        per[1] = per[0] + 1 + vr_u(r, 3); per[2] = per[0] > 8 ? per[0] - 1 - vr_u(r, 3) : per[0] + 7; int cur = 0;
+        size_t const gapMax = 2 + vr_u(r, vr_chance(r, 1, 2) ? 40 : 600); int const islandPerMille = (int)vr_u(r, 4);
+        size_t pos = V_MIN(n, per[0]); if (vr_chance(r, 1, 2)) vr_fill(r, buf, pos); else gen_data(r, buf, pos, DF_TEXT);
+        while (pos < n) {
+            size_t run = 1 + vr_u64(r, gapMax); if (run > n - pos) run = n - pos;
+            size_t const p = V_MIN(per[cur], pos);
+            for (size_t i = 0; i < run; i++) buf[pos + i] = buf[pos + i - p];
+            pos += run; if (pos >= n) break;
+            switch (vr_u(r, 8)) { case 0: cur = (int)vr_u(r, 3); break;                                  /* switch period: offsets alternate among 3 values */
+                case 1: case 2: case 3: buf[pos] = (uint8_t)(buf[pos - p] ^ (1 + vr_u(r, 255))); pos++; break;     /* 1 deviating byte: rep1 after 1 literal */
+                default: break; }                                                                         /* nothing: consecutive matches, litLength 0 */
+            if (pos < n && (int)vr_u(r, 1000) < islandPerMille) {
+                size_t isl = 500 + vr_u(r, 12000); if (isl > n - pos) isl = n - pos; vr_fill(r, buf + pos, isl);
+                int k = (int)vr_u(r, 4); while (k-- && isl > 64) { size_t const at = pos + 16 + vr_u64(r, isl - 48); size_t const ml = 4 + vr_u(r, 20); size_t const d = 1 + vr_u64(r, at - 1); if (d >= ml) memcpy(buf + at, buf + at - d, ml); }
+                pos += isl; }
+        }
+        break; }
     case DF_LONGREP: { /* long-range repetition: a chunk repeated at a large distance */
         size_t const chunk = 1 + vr_u64(r, V_MIN(n, (size_t)1 << 16)); size_t const dist = chunk + vr_u64(r, n); size_t pos = 0;
         while (pos < n) { size_t l = V_MIN(chunk, n - pos); if (pos >= dist && vr_chance(r, 2, 3)) memcpy(buf + pos, buf + pos - dist, l); else if (vr_chance(r, 1, 2)) vr_fill(r, buf + pos, l); else gen_lz(r, buf + pos, l); pos += l; } break; }
